@@ -34,7 +34,7 @@ LEVEL_TEXT = (
 )
 RULE = (
     "random page trees (depth<=6, fan-out<=5, <=40 pages quick / <=300 thorough; chains and wide flat trees) with "
-    "Resources/MediaBox/CropBox/Rotate at random nodes (direct/indirect, boxes with indirect elements), Rotate in "
+    "Resources/MediaBox/CropBox/Rotate at random nodes (direct/indirect, boxes with indirect elements; half of the Resources dictionaries with a second category of their own; 6% of the absent keys written with the null object), Rotate in "
     "{0,90,180,270,-90,-270,360,450,810,-450}, MediaBox origins incl. negative; cyclic/repeated Kids family under a step "
     "budget; selection family: all non-empty page_numbers subsets x maxpages 0..n+1 for n<=5 (exhaustive), random beyond, "
     "through PDFPage.get_pages, extract_pages and extract_text, and a sample of them through tools/pdf2txt.py and tools/dumppdf.py (-p, --pagenos, --page-numbers, -m; one-based). distinct = distinct document bytes (+selection); "
@@ -54,10 +54,12 @@ def minimums(tier: str) -> Dict[str, int]:
     if tier == "quick":
         return {"evaluations": 1500, "distinct": 700, "pages_checked": 6000, "glyphs_checked": 20000, "selections_checked": 600,
                 "cyclic_docs": 60, "inherited_attr_pages": 2000, "seen:rotate_values": 10, "rotation_option_pages": 1500,
-                "tool_selections:dumppdf": 250, "tool_selections:pdf2txt": 250}
+                "tool_selections:dumppdf": 250, "tool_selections:pdf2txt": 250,
+                "page_objects_reread_after_enumeration": 4000, "pages_with_null_valued_inheritable_key": 500, "resource_category_sets_checked": 4000}
     return {"evaluations": 30000, "distinct": 15000, "pages_checked": 150000, "glyphs_checked": 500000, "selections_checked": 12000,
             "cyclic_docs": 1500, "inherited_attr_pages": 40000, "seen:rotate_values": 12, "rotation_option_pages": 30000,
-            "tool_selections:dumppdf": 2000, "tool_selections:pdf2txt": 2000}
+            "tool_selections:dumppdf": 2000, "tool_selections:pdf2txt": 2000,
+            "page_objects_reread_after_enumeration": 100000, "pages_with_null_valued_inheritable_key": 10000, "resource_category_sets_checked": 100000}
 
 
 def shards(tier: str, seed: int) -> List[Dict[str, Any]]:
@@ -143,7 +145,11 @@ def place_attrs(rng: random.Random, root: Node, revbox: bool = False) -> None:
         if rng.random() < 0.3:
             n.attrs["Rotate"] = rng.choice(ROTATES)
         if rng.random() < 0.35:
-            n.attrs["Resources"] = "font%d" % n.nid
+            # half of the resource dictionaries carry a second category of their own ("x"): a page gets the WHOLE dictionary
+            # of the nearest node that has one, never a mixture of several
+            n.attrs["Resources"] = "font%d%s" % (n.nid, rng.choice(["", "x"]))
+        # an inheritable key written with the null object is equivalent to omitting it (7.3.9): inheritance goes on
+        n.null_keys = [a for a in ("MediaBox", "CropBox", "Rotate", "Resources") if a not in n.attrs and rng.random() < 0.06]
     # guarantee MediaBox / Resources for every page
     def fix(node: Node, have_mb: bool, have_res: bool) -> None:
         have_mb = have_mb or "MediaBox" in node.attrs
@@ -243,7 +249,12 @@ def build_doc(rng: random.Random, root: Node, order_for_content: List[Tuple[Node
             fname = n.attrs["Resources"]
             res = {"Font": {"F1": font_widths(name="Helvetica-" + fname, first=32, widths=[500] * 95, subtype="Type1",
                                               encoding=N("WinAnsiEncoding"))}}
+            if fname.endswith("x"):
+                res["ExtGState"] = {"GS%d" % n.nid: {"Type": N("ExtGState"), "LW": 2}}
             d["Resources"] = val(res)
+        for a in getattr(n, "null_keys", []):
+            if a not in n.attrs:        # (fix() may have given the page a MediaBox / Resources after the keys were drawn)
+                d[a] = None
         if n.is_page:
             eff = eff_by_nid.get(n.nid)
             ops = []
@@ -331,8 +342,16 @@ def observe_pages(data: bytes, via: str) -> List[Dict[str, Any]]:
         if lt is not None:
             for c in flatten_chars(lt):
                 chars.append((c.get_text(), c.fontname, c.matrix[4], c.matrix[5]))
-        res.append({"pageid": p.pageid, "mediabox": tuple(p.mediabox), "cropbox": tuple(p.cropbox), "rotate": p.rotate,
-                    "resources": p.resources, "bbox": tuple(lt.bbox) if lt is not None else None, "chars": chars})
+        entry = {"pageid": p.pageid, "mediabox": tuple(p.mediabox), "cropbox": tuple(p.cropbox), "rotate": p.rotate,
+                 "resources": p.resources, "bbox": tuple(lt.bbox) if lt is not None else None, "chars": chars}
+        try:
+            from pdfminer.pdftypes import dict_value
+
+            # the page object as the document hands it out AFTER the pages were enumerated (object cache on)
+            entry["own_keys"] = sorted(a for a in dict_value(p.doc.getobj(p.pageid)) if a in ("MediaBox", "CropBox", "Rotate", "Resources"))
+        except Exception:  # noqa: BLE001
+            pass
+        res.append(entry)
     if len(lts) != len(pages):
         res.append({"count_mismatch": (len(pages), len(lts))})
     return res
@@ -411,6 +430,19 @@ def check_tree_doc(rec, data: bytes, ref_pages: List[Tuple[Node, Dict[str, Any]]
             got_base = "<%s>" % type(e).__name__
         if got_base != fontname:
             fails.append((k("resources"), "%s: Resources give F1=%r expected %r" % (ctx, got_base, fontname)))
+        else:
+            exp_cats = ["ExtGState", "Font"] if fontname.endswith("x") else ["Font"]
+            if sorted(o["resources"]) != exp_cats:
+                fails.append((k("resources_mixed"), "%s: Resources categories %r expected %r (the dictionary of the nearest node only)" % (ctx, sorted(o["resources"]), exp_cats)))
+            rec.count("resource_category_sets_checked")
+        if getattr(n, "null_keys", None) and any(a not in n.attrs for a in n.null_keys):
+            rec.count("pages_with_null_valued_inheritable_key")
+        if "own_keys" in o:
+            exp_own = sorted(a for a in ("MediaBox", "CropBox", "Rotate", "Resources") if a in n.attrs)
+            rec.count("page_objects_reread_after_enumeration")
+            if o["own_keys"] != exp_own:
+                fails.append((k("page_object_changed_by_enumeration"), "%s: getobj(%d) after the pages were enumerated has inheritable keys %r, the file defines %r"
+                              % (ctx, objid[n.nid], o["own_keys"], exp_own)))
         if o["bbox"] is None or tuple(o["bbox"]) != tuple(float(c) for c in expected_page_bbox(mb, rot)):
             fails.append((k("ltpage_bbox"), "%s: LTPage.bbox %r expected %r (MediaBox %r Rotate %r)" % (ctx, o["bbox"], expected_page_bbox(mb, rot), mb, rot)))
         exp_chars = []
